@@ -15,29 +15,10 @@ using namespace tapkee;
 using namespace tapkee::tapkee_internal;
 using v8::show_matrix;
 using v8::show_vector;
+using v8::mirror_heats;
+using v8::uniform;
 
 typedef std::vector<IndexType> Idx;
-
-static DenseMatrix mirror_heats(const DenseMatrix& Dm, const Neighbors& nb, ScalarType width)
-{
-    const IndexType k = nb.empty() ? 0 : nb[0].size();
-    DenseMatrix h(nb.size(), k);
-    for (size_t i = 0; i < nb.size(); ++i)
-        for (IndexType a = 0; a < k; ++a)
-        {
-            ScalarType distance = Dm(i, nb[i][a]);
-            h(i, a) = exp(-distance * distance / width);
-        }
-    return h;
-}
-
-static bool uniform(const Neighbors& nb)
-{
-    for (auto& l : nb)
-        if (l.size() != nb[0].size())
-            return false;
-    return true;
-}
 
 int main()
 {
